@@ -295,7 +295,7 @@ def t_grid_eq(T, tier):
     approx = z3.Function('approx_check', V, V, B)
     shapes = [(0, 1, 0), (1, 1, 1), (1, 2, 2), (0, 1, 2)]
     for (nm, nc, nr) in shapes:
-        for variant in ('same_shape', 'other_not_grid', 'fewer_rows', 'other_meta_key', 'other_column'):
+        for variant in ('same_shape', 'sparse_rows', 'other_not_grid', 'fewer_rows', 'other_meta_key', 'other_column'):
             w = World()
             KD.install(w)
             w.hooks['as_term'] = lambda it, v, sort: None
@@ -337,17 +337,26 @@ def t_grid_eq(T, tier):
                     b, bmd, bcm, brows = mkgrid(it, 'b', nm, nc, nr, cls, cols=['zz'] + ['c%d' % i for i in range(1, nc)])
                 else:
                     b, bmd, bcm, brows = mkgrid(it, 'b', nm, nc, nr, cls)
+                if variant == 'sparse_rows':
+                    # rows are sparse: a null cell is usually just absent - on either side, in different columns
+                    if nr == 0 or nc == 0:
+                        return
+                    cols = list(acm)
+                    for i, (ra, rbw) in enumerate(zip(arows, brows)):
+                        del ra[cols[i % nc]]
+                        del rbw[cols[(i + 1) % nc]]
                 r = it.call_method(a, '__eq__', [b])
                 rb = _bool(it, r)
                 if rb is None:
                     it.ctx.oblige('Grid.__eq__/ensures.returns_bool', z3.BoolVal(False))
                     return
-                if variant != 'same_shape':
+                if variant not in ('same_shape', 'sparse_rows'):
                     it.ctx.oblige('Grid.__eq__/ensures.False_on_material_difference(%s)' % variant, z3.Not(rb))
                     return
                 conj = [approx(amd[k].term, bmd[k].term) for k in amd]
                 conj += [approx(acm[c]['t'].term, bcm[c]['t'].term) for c in acm]
                 for ra, rbw in zip(arows, brows):
-                    conj += [approx(ra[c].term, rbw[c].term) for c in acm]
-                it.ctx.oblige('Grid.__eq__/ensures.iff_every_position_matches', rb == (z3.And(*conj) if conj else z3.BoolVal(True)))
+                    conj += [approx(_t(ra.get(c)), _t(rbw.get(c))) for c in acm]
+                it.ctx.oblige('Grid.__eq__/ensures.iff_every_position_matches(an_absent_cell_is_null)%s' % ('' if variant == 'same_shape' else '/sparse'),
+                              rb == (z3.And(*conj) if conj else z3.BoolVal(True)))
             T.explore(w, run, 'shape=%d.%d.%d/%s' % (nm, nc, nr, variant))
